@@ -28,6 +28,8 @@ class Transport:
         self.limit = None             # bytes released to the client so far (None = everything written is readable)
         self.max_write = None
         self.write_budget = None      # async: bytes the transport still accepts before writes block (None = unlimited)
+        self.interrupt_at = None      # index (0-based) of the read call that fails once with ErrorKind::Interrupted
+        self.read_calls = 0
     def avail(self):
         """bytes deliverable by the next read"""
         end = len(self.stream) if self.limit is None else min(len(self.stream), self.limit)
@@ -68,6 +70,9 @@ def transport(v):
 def m_read(I, c, args, fr):
     t = transport(args[0])
     buf = as_slice(args[1])
+    t.read_calls += 1
+    if t.interrupt_at is not None and t.read_calls - 1 == t.interrupt_at:
+        return err(io_error('Interrupted', 'interrupted system call'))
     if t.fail_read_at is not None and t.pos >= t.fail_read_at:
         return err(io_error('ConnectionReset', 'read fault'))
     if len(buf) == 0:
@@ -137,6 +142,9 @@ class ReadBufFut(PyFuture):
     def __init__(self, t, buf): self.t = t; self.buf = buf
     def poll(self, I):
         t = self.t
+        t.read_calls += 1
+        if t.interrupt_at is not None and t.read_calls - 1 == t.interrupt_at:
+            return err(io_error('Interrupted', 'interrupted system call'))
         if t.fail_read_at is not None and t.pos >= t.fail_read_at:
             return err(io_error('ConnectionReset', 'read fault'))
         n = t.avail()
